@@ -525,6 +525,10 @@ class LibMixin:
                 return list(h.items)
             if isinstance(h, HDeque):
                 return list(h.items)
+            if isinstance(h, HCIter):
+                rest = list(h.items[h.pos :])
+                h.pos = len(h.items)  # consumed
+                return rest
             if isinstance(h, HDict) and h.present is None:
                 return [const(k) if not isinstance(k, Val) else k for k in h.items]
         if isinstance(v, VConst) and isinstance(v.py, _Frozen) and isinstance(v.py.data, (list, tuple)):
@@ -554,6 +558,12 @@ class LibMixin:
                 return self.list_seq(st, v)
             if isinstance(h, HIter):
                 return h.seq
+            if isinstance(h, HCIter):
+                rest = h.items[h.pos :]
+                if not rest:
+                    return z3.Empty(SeqU)
+                units = [z3.Unit(box(x)) for x in rest]
+                return units[0] if len(units) == 1 else z3.Concat(*units)
         return None
 
     # ---------------------------------------------------------------- subscripts
